@@ -71,22 +71,42 @@ pub(crate) fn append_trailing_statement_suffix(
     append_trailing_comment_suffix(ctx, plan, docs, node);
 }
 
-fn append_trailing_statement_semicolon(
+pub(crate) fn append_trailing_statement_semicolon(
     ctx: &FormatContext,
     plan: &FormatPlan,
     docs: &mut Vec<DocIR>,
     node: &LuaSyntaxNode,
 ) {
-    if !ctx.config.output.preserve_statement_semicolon {
-        return;
-    }
-
     let Some(semicolon) = trailing_statement_semicolon_token(node) else {
         return;
     };
 
+    // A semicolon in front of a statement that starts with `(` is not optional: without it
+    // `x = y; (f)()` would be read as the single statement `x = y(f)()`.
+    if !ctx.config.output.preserve_statement_semicolon
+        && !semicolon_separates_from_open_paren(&semicolon)
+    {
+        return;
+    }
+
     docs.extend(token_left_spacing_docs(plan, Some(&semicolon)));
     docs.push(ir::source_token(semicolon));
+}
+
+fn semicolon_separates_from_open_paren(semicolon: &LuaSyntaxToken) -> bool {
+    let mut next = semicolon.next_token();
+    while let Some(token) = next {
+        match token.kind() {
+            LuaKind::Token(LuaTokenKind::TkWhitespace | LuaTokenKind::TkEndOfLine) => {}
+            _ if token
+                .parent_ancestors()
+                .any(|node| node.kind() == LuaKind::Syntax(LuaSyntaxKind::Comment)) => {}
+            LuaKind::Token(LuaTokenKind::TkLeftParen) => return true,
+            _ => return false,
+        }
+        next = token.next_token();
+    }
+    false
 }
 
 pub(crate) fn source_order_token_is_trailing_statement_semicolon(
